@@ -142,41 +142,69 @@ def run_case(case):
         v, code, etm, hs = case["cls"]
         seed = case["seed"]
         cname = c01.class_name(v, code, etm, hs)
-        for v6 in (False, True):
-            for mss in (1460, 100, 9):
-                scn = {"version": v, "suite": code, "etm": etm, "hs_secrets": hs,
-                       "history": [("c", 0), ("c", 130), ("s", 420), ("s", 17), ("c", 260), ("s", 1)]}
-                f1 = scen.tls_flow(scn, seed, 3, v6=v6, mss=mss)
-                f2 = scen.tls_flow(dict(scn, history=[("s", 33), ("c", 250)]), seed, 4, v6=not v6, mss=mss, key=("second",))
-                ends = {3: f1.ends, 4: f2.ends}
-                pkts = cap.stamp(scen.round_robin([f1.pkts, f2.pkts]), ends)
-                res = scen.run(pkts, f1.keylog() + f2.keylog())
-                n += 1
-                sig = {"layer": "T", "class": cname, "v6": v6, "mss": mss}
-                try:
-                    an = scen.analyse(res)
-                except scen.ExportError as e:
-                    fails.append({"kind": e.kind, "sig": sig, "detail": e.detail})
-                    continue
-                before = len(fails)
-                cnt = check_tls_flow(an, f1, pkts, sig, fails) + check_tls_flow(an, f2, pkts, dict(sig, flow=2), fails)
-                if len(fails) == before and cnt >= 2:
-                    nontriv.append(engine.jhash(sig))
-                    if sample is None:
-                        sample = {"scenario": sig, "attributed_output_packets": cnt}
+        combos = [(v6, mss, order) for v6 in (False, True) for mss in (1460, 100, 9) for order in ("in_order", "displaced")
+                  if not (order == "displaced" and mss == 9)]
+        for v6, mss, order in combos:
+            scn = {"version": v, "suite": code, "etm": etm, "hs_secrets": hs,
+                   "history": [("c", 0), ("c", 130), ("s", 420), ("s", 17), ("c", 260), ("s", 1)]}
+            f1 = scen.tls_flow(scn, seed, 3, v6=v6, mss=mss)
+            f2 = scen.tls_flow(dict(scn, history=[("s", 33), ("c", 250)]), seed, 4, v6=not v6, mss=mss, key=("second",))
+            if order == "displaced":
+                # every other non-first data segment that is directly followed by a segment of its own direction is captured
+                # after that successor, so neighbouring segments meet in the reassembly buffer
+                for f in (f1, f2):
+                    pk0, seen, i, flip = f.pkts, set(), 0, 0
+                    while i < len(pk0) - 1:
+                        p, q = pk0[i], pk0[i + 1]
+                        if p.payload and q.payload and p.dir == q.dir and p.dir in seen:
+                            flip += 1
+                            if flip % 2:
+                                pk0[i], pk0[i + 1] = q, p
+                                i += 2
+                                continue
+                        if p.payload:
+                            seen.add(p.dir)
+                        i += 1
+            ends = {3: f1.ends, 4: f2.ends}
+            pkts = cap.stamp(scen.round_robin([f1.pkts, f2.pkts]), ends)
+            res = scen.run(pkts, f1.keylog() + f2.keylog())
+            n += 1
+            sig = {"layer": "T", "class": cname, "v6": v6, "mss": mss, "order": order}
+            try:
+                an = scen.analyse(res)
+            except scen.ExportError as e:
+                fails.append({"kind": e.kind, "sig": sig, "detail": e.detail})
+                continue
+            before = len(fails)
+            cnt = check_tls_flow(an, f1, pkts, sig, fails) + check_tls_flow(an, f2, pkts, dict(sig, flow=2), fails)
+            if len(fails) == before and cnt >= 2:
+                nontriv.append(engine.jhash(sig))
+                if sample is None:
+                    sample = {"scenario": sig, "attributed_output_packets": cnt}
     elif case["layer"] == "Q":
         seed = case["seed"]
         scs = [{}] if case["d1"] is None else [{case["d1"]: v} for v in c02.ALTS[case["d1"]]]
+        runs = []
         for sc in scs:
             if not c02.valid(sc):
                 continue
-            conn = scen.quic_conn(c02.to_model(sc), seed)
+            for tail in (None, "c", "s"):
+                runs.append((sc, tail, None))
+        if case["d1"] is None:
+            # every cut of the default connection (with a CRYPTO-only tail): the capture may end anywhere
+            full = scen.quic_conn(dict(c02.to_model({}), tail="c"), seed)
+            for cut in range(1, len(full.dgrams)):
+                runs.append(({}, "c", cut))
+        for sc, tail, cut in runs:
+            conn = scen.quic_conn(dict(c02.to_model(sc), tail=tail), seed)
+            if cut is not None:
+                conn.dgrams = conn.dgrams[:cut]
             e = cap.Ends(8, v6=bool(sc.get("v6")))
             flow = scen.Flow("quic", conn, e, 0, scen.quic_packets(conn, 0))
             pkts = cap.stamp(flow.pkts, {0: e})
             res = scen.run(pkts, conn.keylog)
             n += 1
-            sig = {"layer": "Q", "dev": {k: str(v) for k, v in sc.items()}}
+            sig = {"layer": "Q", "dev": {k: str(v) for k, v in sc.items()}, "tail": tail, "cut": cut}
             try:
                 an = scen.analyse(res)
             except scen.ExportError as ex:
@@ -184,7 +212,7 @@ def run_case(case):
                 continue
             before = len(fails)
             cnt = check_quic_flow(an, flow, pkts, sig, fails)
-            if len(fails) == before and cnt >= 2:
+            if len(fails) == before and cnt >= 1:
                 nontriv.append(engine.jhash(sig))
                 if sample is None:
                     sample = {"scenario": sig, "attributed_output_datagrams": cnt}
